@@ -62,3 +62,35 @@ fn c09_v_n1_twin() {
     assert!(r.is_err(), "twin: must fail");
     core::mem::forget(r);
 }
+
+/// RandomState::new reads OS randomness (not executable under CBMC): fixed keys. Sound for these harnesses: no
+/// entry is ever inserted (the buffer ends before the first complete entry), so no hash is computed.
+pub fn random_state_stub() -> std::hash::RandomState {
+    unsafe { core::mem::transmute::<[u64; 2], std::hash::RandomState>([0, 0]) }
+}
+
+/// handshake Propose whose version table declares more entries than the buffer holds: [0x82, 0x00, map head with a
+/// 1/2/4/8-byte length argument, at most one further byte]: the result is an error, never a panic (e.g. from
+/// pre-allocating the declared length)
+/// bound: (excluded: no verdict in 400 s) map length argument symbolic over the full width of its head form, 0..=1 trailing symbolic byte; unwind 4
+/// stub: std::hash::RandomState::new -> fixed keys (no entry is inserted in these harnesses)
+#[kani::proof]
+#[kani::unwind(4)]
+#[kani::stub(std::fmt::format, crate::stubs::fmt_format_stub)]
+#[kani::stub(std::hash::RandomState::new, random_state_stub)]
+fn c09_x_n1_handshake_declared_len() {
+    let mut b: [u8; 12] = kani::any();
+    b[0] = 0x82;
+    b[1] = 0x00;
+    let form: u8 = kani::any();
+    kani::assume(form <= 3);
+    b[2] = 0xb8 + form;
+    let arg = 1usize << form;
+    let extra: usize = kani::any();
+    kani::assume(extra <= 1);
+    let len = 3 + arg + extra;
+    let r: Result<proto::handshake::Message<proto::handshake::n2n::VersionData>, _> = pallas_codec::minicbor::decode(&b[..len]);
+    assert!(r.is_err(), "a version table that declares more entries than the buffer holds is rejected");
+    kani::cover!(r.is_err(), "reached");
+    core::mem::forget(r);
+}
